@@ -328,6 +328,11 @@ def py_node(j):
     from btc_hd_wallet.bip32 import PrvKeyNode, PubKeyNode
     kw = dict(chain_code=bytes(j["c"]), index=int.from_bytes(bytes(j["idx"]), "big"), depth=j["depth"],
               testnet=(j["net"] == "test"), parent_fingerprint=bytes(j["pfp"]))
+    if j.get("parent") is not None:
+        # the node is linked to a parent OBJECT (a fresh one, nothing derived from it yet) instead of being given the
+        # four fingerprint bytes: the fingerprint then comes from that object
+        kw.pop("parent_fingerprint")
+        kw["parent"] = py_node(j["parent"])
     if j["prv"]:
         return PrvKeyNode(key=bytes(j["k"]), **kw)
     return PubKeyNode(key=bytes(j["K"]), **kw)
